@@ -249,7 +249,12 @@ fn run_name(cx: &mut Cx, rep: &mut Report, path: &str, origin: &str) {
     match file_dict_name(&url) {
         Err(e) => {
             rep.case(&format!("N {}", cps_str(&dec)), "E");
-            rep.fail("name-error", format!("file_dict_name failed: {e}"), inp);
+            if comps(&decoded).is_empty() {
+                // since 08b9da8: a URL whose path is just the root names no file and has no file dictionary
+                rep.count("name:url_names_no_file(no file dictionary)");
+            } else {
+                rep.fail("name-error", format!("file_dict_name failed: {e}"), inp);
+            }
         }
         Ok(n) => {
             let n = n.to_string_lossy().to_string();
